@@ -174,6 +174,42 @@ theorem entry_accepts_client (table : List (List Nat)) (hnd : table.Nodup)
     simp [hl]
   · rw [cpiMetas_eq_client pid s sv hty, hcl, clientMetas_resolve pid s v (fits_typed pid s arg v hfits)]
 
+/-- **`split_to_args` hands every phase exactly the annotated fields' values.** For an instruction
+struct with fields `vals` annotated `anns` (any number of fields, annotated or not, in any order —
+in particular tuple structs, where the accessor is the positional `r.<i>`), phase `ph` receives the
+whole struct if the struct itself is annotated, followed by the values of precisely the fields
+annotated with `ph`, in declaration order. -/
+theorem split_to_args_selects (ph : Phase) (selfAnn : List Phase) (anns : List (List Phase))
+    (vals : List Nat) (h : anns.length = vals.length) :
+    splitPhase ph selfAnn anns vals = (if ph ∈ selfAnn then [vals] else []) ++
+      ((anns.zip vals).filter (fun p => decide (ph ∈ p.1))).map (fun p => [p.2]) :=
+  splitPhase_eq ph selfAnn anns vals h
+
+/-- End to end for the tuple-struct harness instructions (`u8` fields, account set
+`{ v: Vec<AccountInfo> }` with the decode argument as length): if exactly one field is annotated
+`decode` (value `d`, stated through `split_to_args_selects`' right-hand side) and the client sends
+`d` accounts, the entry path decodes exactly those `d` accounts and every other phase gets its
+annotated fields' values. -/
+theorem tuple_ix_entry (table : List (List Nat)) (hnd : table.Nodup) (hlen : ∀ d ∈ table, d.length = 8)
+    (i : Nat) (hi : i < table.length) (pid : Key) (selfAnn : List Phase) (anns : List (List Phase))
+    (vals : List Nat) (h : anns.length = vals.length) (d : Nat) (accts : List Acct)
+    (hself : Phase.decode ∉ selfAnn)
+    (hd : ((anns.zip vals).filter (fun p => decide (Phase.decode ∈ p.1))).map (·.2) = [d])
+    (hacc : accts.length = d) :
+    entryTuple table i pid selfAnn anns (ixData table[i] vals) accts =
+      .ok { used := d, rem := 0, decoded := d,
+            validate := splitPhase .validate selfAnn anns vals,
+            run := splitPhase .run selfAnn anns vals,
+            cleanup := splitPhase .cleanup selfAnn anns vals } := by
+  have hsplit : splitPhase .decode selfAnn anns vals = [[d]] := by
+    rw [splitPhase_eq _ _ _ _ h, if_neg hself]
+    have := congrArg (List.map (fun x : Nat => [x])) hd
+    simpa [List.map_map] using this
+  have hdv : deVals anns.length (vals ++ []) = some (vals, []) := by rw [h]; exact deVals_append vals []
+  simp only [List.append_nil] at hdv
+  subst hacc
+  simp [entryTuple, dispatch_ok table hnd hlen i hi, hdv, hsplit, decode_spy]
+
 /-! ### Non-vacuity: the hypotheses are satisfiable and the conclusions are not trivially true -/
 
 /-- the probe set `{ a: Mut<Signer>, opt: Option<AccountInfo>, inner: { x: Signer, y: Option<Mut<_>> },
@@ -205,6 +241,13 @@ example : decode [9] (.opt (.single false false none [])) .unit [⟨[9], false, 
 /-- the data round trip's hypotheses hold for real borsh-like codecs (here: the harness types) -/
 example : deRun (serRun ⟨7, 300, true, [1, 2]⟩ ++ [5]) = some (⟨7, 300, true, [1, 2]⟩, [5]) := by decide
 example : dispatch [[1,1,1,1,1,1,1,1], [2,2,2,2,2,2,2,2]] (ixData [2,2,2,2,2,2,2,2] [7]) = some (1, [7]) := by decide
+
+/-- `Distribute(u8 /*version*/, #[ix_args(decode)] u8, #[ix_args(run)] u8)`: decode gets field 1, run field 2
+(not fields 0 and 1, which is what indexing among the annotated fields only would give) -/
+example : splitPhase .decode [] [[], [.decode], [.run]] [7, 2, 9] = [[2]] ∧
+    splitPhase .run [] [[], [.decode], [.run]] [7, 2, 9] = [[9]] ∧
+    splitPhase .validate [] [[], [.decode], [.run]] [7, 2, 9] = [] ∧
+    splitPhase .run [.run] [[], [.decode], []] [7, 2, 9] = [[7, 2, 9]] := by decide
 
 /-- fixed-size vs dynamic declared lengths -/
 example : declaredLen (.struct [.arr 2 (.single false true none [.writable]), .opt (.single true false none [.signer])]) = some 3 ∧
